@@ -275,6 +275,9 @@ def _crun(stmts, env, eff, tokvar):
             elif _crun(s.orelse, env, eff, tokvar):
                 return True
         elif isinstance(s, ast.AugAssign) and isinstance(s.target, ast.Name):
+            if s.target.id not in env or isinstance(env[s.target.id], tuple):
+                env[s.target.id] = ('obj',)      # a counter that is not part of the table
+                continue
             v = _cev(s.value, env)
             env[s.target.id] = env[s.target.id] + v if isinstance(s.op, ast.Add) else env[s.target.id] - v
         elif isinstance(s, ast.Assign) and isinstance(s.targets[0], ast.Name):
@@ -528,7 +531,7 @@ def ex1(model):
     else:
         r.fail(p.node, 'with an extraction list the main text is not dropped', stmt='main = [] under extract')
     # flows appended once, in order
-    loop2 = [s for s in T.body_with_tail(model, p) if isinstance(s, ast.For) and 'extracted' in unparse(s.iter)]
+    loop2 = [s for s in T.body_with_tail(model.inl(), model.inl().func('parser.Parser.parse')) if isinstance(s, ast.For) and 'extracted' in unparse(s.iter)]
     if loop2 and isinstance(loop2[0].target, ast.Name):
         v = loop2[0].target.id
         adds = []
